@@ -1,6 +1,7 @@
 package main
 
 import (
+	"sync"
 	"fmt"
 	"go/types"
 	"sort"
@@ -187,9 +188,16 @@ func newSorts() *Sorts {
 
 const modPrefix = "github.com/go-fed/activity/"
 
+var normCache sync.Map // types.Type -> string (type strings of the generated structs are long; they are asked for constantly)
+
 func normType(t types.Type) string {
+	if v, ok := normCache.Load(t); ok {
+		return v.(string)
+	}
 	s := types.TypeString(t, func(p *types.Package) string { return p.Path() })
-	return strings.ReplaceAll(s, modPrefix, "")
+	s = strings.ReplaceAll(s, modPrefix, "")
+	normCache.Store(t, s)
+	return s
 }
 
 func (ss *Sorts) sortOf(t types.Type) string {
